@@ -80,17 +80,42 @@ pub fn execute(ctx: &mut Ctx, s: &Scenario) -> Outcome {
     };
     out.ontologies += 1;
     let pf = project_all(&s.facts, &spec.projs());
+    let mod_roots: Vec<u32> = if spec.has_defaults() { defaults(&pf).map(|d| d.modifier).unwrap_or_default() } else { vec![] };
+    let mut r = Prng::new(s.aux_seed);
     let anc = closure(&pf);
+    let bad_leaf = sub.leaves.iter().any(|l| pf.has_term(*l) && pf.has_term(sub.root) && *l != sub.root && !anc[l].contains(&sub.root));
+    let first = check_request(ctx, &mut out, src, &pf, &mod_roots, sub, &mut r, "");
+    // a multi-step history: a sub-ontology of the sub-ontology (its source has no modifier roots: build_minimal)
+    if let Some((o1, obs1)) = first {
+        if r.chance(1, 3) && obs1.terms.len() >= 2 {
+            let f1 = facts_of_obs(&obs1);
+            if let Some(sub2) = draw_sub(&mut r, &f1, 0, true) {
+                ctx.counters.add("probe.chained_sub_ontology", 1);
+                let _ = check_request(ctx, &mut out, &o1, &f1, &[], &sub2, &mut r, "second-level ");
+            }
+        }
+    }
+    out.nontrivial = out.ontologies >= 2;
+    out.fingerprint = mix2(
+        mix2(tag(P), tag(&spec.label())),
+        (sub.leaves.len().min(7) as u64) | (u64::from(bad_leaf) << 4) | ((s.facts.terms.len().min(60) as u64) << 8) | (u64::from(sub.root == 1) << 16) | (u64::from(sub.root == 118) << 17) | (u64::from(mod_roots.contains(&sub.root)) << 18) | (u64::from(sub.hash.0) << 20),
+    );
+    out
+}
+
+/// One sub-ontology request against `src` (whose direct facts are `pf`), executed under 2-3 schedules.
+/// Returns the first result (for chaining) when the request was legal and accepted.
+#[allow(clippy::too_many_arguments)]
+fn check_request(ctx: &mut Ctx, out: &mut Outcome, src: &hpo::Ontology, pf: &crate::facts::FactSet, mod_roots: &[u32], sub: &SubSpec, r: &mut Prng, level: &str) -> Option<(Box<hpo::Ontology>, Obs)> {
+    let anc = closure(pf);
     let ids = pf.term_ids();
     if !ids.contains(&sub.root) || sub.leaves.iter().any(|l| !ids.contains(l)) || sub.leaves.is_empty() {
-        return out;
+        return None;
     }
     let bad_leaf = sub.leaves.iter().any(|l| *l != sub.root && !anc[l].contains(&sub.root));
-    let mod_roots: Vec<u32> = if spec.has_defaults() { defaults(&pf).map(|d| d.modifier).unwrap_or_default() } else { vec![] };
     let is_modifier = |t: u32| mod_roots.iter().any(|m| *m == t || anc[&t].contains(m));
-
+    let mut first: Option<(Box<hpo::Ontology>, Obs)> = None;
     // the same request under 2-3 schedules: hash schedule and leaf order / multiplicity vary
-    let mut r = Prng::new(s.aux_seed);
     let mut variants: Vec<SubSpec> = vec![sub.clone()];
     let nv = r.urange(1, 2);
     for _ in 0..nv {
@@ -105,7 +130,7 @@ pub fn execute(ctx: &mut Ctx, s: &Scenario) -> Outcome {
     }
     let mut results: Vec<Obs> = vec![];
     for (vi, v) in variants.iter().enumerate() {
-        let what = format!("sub_ontology(root={}, leaves={:?}, hash-mode={})", v.root, v.leaves, v.hash.0);
+        let what = format!("{level}sub_ontology(root={}, leaves={:?}, hash-mode={})", v.root, v.leaves, v.hash.0);
         let b = run_sub(ctx, src, v);
         out.mixin(tag(&b.describe()));
         match (&b, bad_leaf) {
@@ -241,11 +266,16 @@ pub fn execute(ctx: &mut Ctx, s: &Scenario) -> Outcome {
             out.violate(P, format!("inner-invariant:anomaly:{owner}"), format!("{what}: {msg}"));
         }
         let before = out.violations.len();
-        check_ic_invariants(&mut out, P, &what, &got);
+        check_ic_invariants(out, P, &what, &got);
         for v in out.violations.iter_mut().skip(before) {
             v.class = format!("inner-invariant:{}", v.class);
         }
         let _ = vi;
+        if first.is_none() {
+            if let Built::Ok(o) = b {
+                first = Some((o, got.clone()));
+            }
+        }
         results.push(got);
     }
     // same retained set => same ontology, whatever the hash schedule and leaf order
@@ -261,10 +291,5 @@ pub fn execute(ctx: &mut Ctx, s: &Scenario) -> Outcome {
             ctx.counters.add("probe.retained_set_varies_with_schedule", 1);
         }
     }
-    out.nontrivial = out.ontologies >= 2;
-    out.fingerprint = mix2(
-        mix2(tag(P), tag(&spec.label())),
-        (sub.leaves.len().min(7) as u64) | (u64::from(bad_leaf) << 4) | ((s.facts.terms.len().min(60) as u64) << 8) | (u64::from(sub.root == 1) << 16) | (u64::from(sub.root == 118) << 17) | (u64::from(mod_roots.contains(&sub.root)) << 18) | (u64::from(sub.hash.0) << 20) | ((variants.len() as u64) << 24),
-    );
-    out
+    first
 }
